@@ -34,8 +34,8 @@ SEEDED_SCALE = {"quick": 200, "thorough": 300}      # multiplies the run counts 
 
 def plan(tier):
     if tier == "quick":
-        return [("bus", 1500), ("locs", 1000), ("platform", 600)]
-    return [("bus", 120000), ("locs", 60000), ("platform", 30000)]
+        return [("bus", 1500), ("locs", 1000), ("platform", 600), ("names", 100)]
+    return [("bus", 120000), ("locs", 60000), ("platform", 30000), ("names", 6000)]
 
 
 def generate(family, rng, tier):
@@ -92,6 +92,15 @@ def generate(family, rng, tier):
         if kind == "irq" and n_locs <= 8:
             reqs += [{"name": "x%d" % i, "n": None, "reuse": False} for i in range(rng.randint(0, n_locs + 1))]
         return {"family": family, "params": p, "reqs": reqs}
+    if family == "names":
+        # several clients declare constants / configuration names on one SoC: names are published in upper case, so two
+        # spellings of one name are the same name; a second declaration is rejected unless the caller opts out of the check
+        pool = ["spi_frequency", "SPI_FREQUENCY", "Spi_Frequency", "uart_polling", "UART_POLLING", "mem0_size", "MEM0_SIZE", "x", "X", "y"]
+        reqs = []
+        for i in range(rng.randint(2, 10)):
+            reqs.append({"op": rng.choice(["constant", "constant", "config"]), "name": rng.choice(pool), "value": rng.choice([None, i, "v%d" % i]),
+                         "check": rng.random() < 0.85})
+        return {"family": family, "params": {}, "reqs": reqs}
     if family == "platform":
         io = []
         names = ["led", "btn", "serial", "spi"]
@@ -124,7 +133,7 @@ def _quiet():
 def run(scn):
     _quiet()
     try:
-        return {"bus": run_bus, "locs": run_locs, "platform": run_platform}[scn["family"]](scn)
+        return {"bus": run_bus, "locs": run_locs, "platform": run_platform, "names": run_names}[scn["family"]](scn)
     finally:
         if sys.stderr is None:
             sys.stderr = sys.__stderr__
@@ -282,6 +291,55 @@ def run_locs(scn):
     stats = {"checks": checks, "nontrivial": accepted >= 3 and (rejected > 0 or boundary > 0), "faults": {"req_order": len(scn["reqs"])},
              "probes": {"accepted": accepted, "rejected": rejected, "boundary_requests": boundary}, "cycles": 0}
     return {"violations": viols, "digest": hashlib.sha256(repr(sorted(h.locs.items())).encode()).hexdigest()[:16], "stats": stats}
+
+
+def run_names(scn):
+    from litex.soc.integration.soc import SoC, SoCError
+    from litex.build.generic_platform import GenericPlatform
+    viols = []
+    V = mkV(viols)
+    soc = SoC(GenericPlatform("dev", io=[]), sys_clk_freq=int(1e6))
+    base = dict(soc.constants)
+    model = {}          # published (upper-case) name -> value of the declaration that holds it
+    accepted = rejected = dups = 0
+    checks = 0
+    for rq in scn["reqs"]:
+        pub = rq["name"].upper()
+        if rq["op"] == "config":
+            pub = "CONFIG_" + pub
+        dup = pub in model or pub in base
+        dups += dup
+        try:
+            if rq["op"] == "constant":
+                soc.add_constant(rq["name"], rq["value"], check_duplicate=rq["check"])
+            else:
+                soc.add_config(rq["name"], rq["value"], check_duplicate=rq["check"])
+            ok = True
+        except SoCError:
+            if sys.stderr is None:
+                sys.stderr = sys.__stderr__
+            ok = False
+        checks += 2
+        if ok and dup and rq["check"]:
+            V("name_granted_twice", "constants", "%s(%r) accepted although %r is already declared (value %r): the earlier declaration is silently overwritten"
+              % ("add_" + rq["op"], rq["name"], pub, model.get(pub)))
+            break
+        if not ok and not (dup and rq["check"]):
+            V("request_rejected", "constants", "%s(%r, check_duplicate=%s) rejected although %r was free" % ("add_" + rq["op"], rq["name"], rq["check"], pub))
+            break
+        if not ok:
+            rejected += 1
+            break
+        accepted += 1
+        model[pub] = rq["value"]
+        got = {k: v for k, v in soc.constants.items() if k not in base or k in model}
+        checks += 1
+        if got != model:
+            V("names_table", "constants", "published constants %r differ from the declarations accepted so far %r" % (got, model))
+            break
+    stats = {"checks": checks, "nontrivial": accepted >= 2 and dups > 0, "faults": {"req_order": len(scn["reqs"])},
+             "probes": {"accepted": accepted, "rejected": rejected, "duplicate_names": dups}, "cycles": 0}
+    return {"violations": viols, "digest": hashlib.sha256(repr(sorted((k, repr(v)) for k, v in model.items())).encode()).hexdigest()[:16], "stats": stats}
 
 
 def run_platform(scn):
